@@ -45,6 +45,46 @@ def observe(cases):
     return events
 
 
+def embedded(cases, rep):
+    """the same intervals used as operands inside statements of every dialect class: the literal found in the statement text is
+    judged like the stand-alone one (an operand position must not fall back to another dialect's template)"""
+    import re
+
+    from pypika_tortoise import Case, Interval, Table
+    from pypika_tortoise import functions as fn
+
+    t = Table("t")
+    sites = {
+        "add": lambda Q, iv: Q.from_(t).select(t.d + iv),
+        "sub-where": lambda Q, iv: Q.from_(t).select(t.a).where(t.d > fn.Now() - iv),
+        "func-arg": lambda Q, iv: Q.from_(t).select(fn.Coalesce(t.d, iv)),
+        "case": lambda Q, iv: Q.from_(t).select(Case().when(t.a == 1, t.d + iv).else_(t.d)),
+        "set": lambda Q, iv: Q.update(t).set(t.d, t.d - iv),
+        "insert": lambda Q, iv: Q.into(t).insert(1, fn.Now() + iv),
+        "subquery": lambda Q, iv: Q.from_(t).select(t.a).where(t.a.isin(Q.from_(t).select(t.a).where(t.d < fn.Now() - iv))),
+        "having": lambda Q, iv: Q.from_(t).select(t.a).groupby(t.a).having(fn.Max(t.d) > fn.Now() - iv),
+    }
+    pat = re.compile(r"INTERVAL '[^']*'(?: (?:YEAR|MONTH|DAY|HOUR|MINUTE|SECOND|MICROSECOND|WEEK|QUARTER)(?:_[A-Z]+)?(?![A-Z_]))?")
+    events = []
+    for kind, c in cases:
+        kw = dict(zip(UNITS, c)) if kind == "ymd" else {("quarters" if kind == "quarter" else "weeks"): c[0]}
+        for d, Q in core.query_classes().items():
+            for sname, f in sites.items():
+                try:
+                    text = str(f(Q, Interval(**kw)))
+                except Exception as ex:  # noqa
+                    rep.discrepancy([["embedded", sname, d, "raises:" + type(ex).__name__]], {"kind": kind, "c": list(c), "site": sname, "dialect": d},
+                                    what="an interval operand makes building / rendering raise")
+                    continue
+                m = pat.findall(text)
+                if len(m) != 1:
+                    rep.discrepancy([["embedded", sname, d, "no-single-literal"]], {"kind": kind, "c": list(c), "site": sname, "dialect": d, "text": text},
+                                    what="the statement does not contain exactly one interval literal")
+                    continue
+                events.append({"kind": kind, "c": list(c), "d": REP[TEMPLATE_CLASS[d]], "chars": [ord(ch) for ch in m[0]], "text": text, "ctxs": [d], "site": sname})
+    return events
+
+
 def run(tier: str) -> int:
     rep = core.Report("C18", tier)
     rnd = random.Random(core.seed())
@@ -79,6 +119,11 @@ def run(tier: str) -> int:
             c[k] = -c[k]
         cases.append(("ymd", tuple(c)))
     events = observe(cases)
+    # operand positions: every digit-pattern class once (values 0/1/10/105 over 7 fields, first 300 + every 29th) and the seeded ones sparsely
+    emb = embedded([c for k, c in enumerate(cases) if k < 300 or k % (29 if tier == "quick" else 7) == 0], rep)
+    for e in emb:
+        e["tid"] = len(events)
+        events.append(e)
     slim = [{k: e[k] for k in ("tid", "kind", "c", "d", "chars")} for e in events]
     results = tlc.judge_shards("J_C18", "INIT Init\nNEXT Next\n", slim, shard=max(3000, len(slim) // 16 + 1))
     rep.add_tlc(results)
@@ -95,13 +140,16 @@ def run(tier: str) -> int:
     for tid in sorted(bad, key=lambda t: (len(bad[t]["disc"]), sum(abs(x) for x in events[t]["c"]))):
         e = events[tid]
         sigs = [_sig(s) for s in bad[tid]["disc"]]
-        rep.discrepancy(sorted(sigs), {"kind": e["kind"], "c": e["c"], "text": e["text"], "ctxs": e["ctxs"]},
+        if e.get("site"):
+            sigs = sigs + [["embedded", e["site"], e["ctxs"][0]] + x for x in sigs]
+        rep.discrepancy(sorted(sigs) if not e.get("site") else sigs, {"kind": e["kind"], "c": e["c"], "text": e["text"], "ctxs": e["ctxs"]},
                         what="literal does not denote the supplied components")
     for e in events[:: max(1, len(events) // 5)]:
         rep.sample({"args": e["c"], "kind": e["kind"], "text": e["text"], "ctxs": e["ctxs"], "verdict": "decodes to args" if e["tid"] not in bad else "discrepancy"})
     rep.rule = (f"all 7-tuples over {vals} with the leading non-zero component of either sign, quarters and weeks, plus seeded "
                 "multi-digit tuples; each through the real Interval.get_sql under 6 contexts; TLC decodes the emitted characters "
-                "with PT_Interval!Dec; distinct = distinct argument tuples")
+                "with PT_Interval!Dec; distinct = distinct argument tuples; a sample of the tuples is also used as an operand at 8 statement positions "
+                "under the 6 dialect classes and the literal found in the statement is judged the same way")
     rep.exhaustive = True
     rep.assumptions = ["components read as integer fields per the unit designator (not MySQL fractional-second padding)"]
     return rep.finish()
